@@ -457,11 +457,11 @@ func seqInts(n int) []int {
 }
 
 type sectionSrc struct {
-	Name    string
-	IOMode  string // "" = rely on the global one
-	Items   []srcItem
-	UsedIn  []int
-	UsedOut []int
+	Name     string
+	IOMode   string // "" = rely on the global one
+	Items    []srcItem
+	UsedIn   []int
+	UsedOut  []int
 	Trailing []string
 }
 
@@ -709,8 +709,8 @@ func genMacros(t *rapid.T, rsize int, o genOpts, movLit int) []*macroDef {
 // rendering with layout noise
 
 type renderer struct {
-	t *rapid.T
-	b strings.Builder
+	t  *rapid.T
+	b  strings.Builder
 	nl string
 }
 
@@ -799,13 +799,8 @@ func genSource(o genOpts) func(t *rapid.T) Case {
 		switch c.Cfg {
 		case cfgDefault:
 			movLit = 0
-			if rapid.IntRange(0, 19).Draw(t, "movlit_default") == 0 {
+			if rapid.IntRange(0, 19).Draw(t, "movlit_default") == 7 {
 				movLit = 2 // refused: "a criteria is needed" (counted)
-			}
-		case cfgMinWord, cfgMinSame:
-			movLit = 1
-			if rapid.IntRange(0, 9).Draw(t, "movlit_minword") == 0 {
-				movLit = 2
 			}
 		}
 		macros := genMacros(t, rsize, o, movLit)
@@ -875,7 +870,10 @@ func genSource(o genOpts) func(t *rapid.T) Case {
 		}
 		// wiring: fan-out 1. Every used output of a CP goes to one sink (an unfed input of a later CP,
 		// else a machine output); every input left is fed by a machine input.
-		type att struct{ name, cp, typ string; idx int }
+		type att struct {
+			name, cp, typ string
+			idx           int
+		}
 		var atts [][2]att
 		fed := make([]map[int]bool, nCP)
 		for i := range fed {
@@ -1036,4 +1034,66 @@ func genSource(o genOpts) func(t *rapid.T) Case {
 		}
 		return c
 	}
+}
+
+// genLabelLeak draws the shape of the label-leak defect (see the exclusion in evalCase).
+func genLabelLeak(t *rapid.T) Case {
+	var c Case
+	rsize := rapid.SampledFrom([]int{8, 16, 32, 64}).Draw(t, "rsize")
+	c.Cfg = cfgNoDyn
+	mk := func() *secGen {
+		return &secGen{t: t, rsize: rsize, movLit: 2, nData: 2, maxOut: 1, labels: map[string]bool{}, usedIn: map[int]bool{}, usedOut: map[int]bool{}}
+	}
+	x := rapid.SampledFrom([]string{"again", "X", "lbl_3", "back"}).Draw(t, "leaked")
+	r := &renderer{t: t, nl: "\n"}
+	// the section whose last line is the label
+	first := mk()
+	first.ins("nop")
+	first.place([]string{"s0"})
+	first.alu(false)
+	first.jump("s0")
+	r.line("%section first .romtext iomode:sync")
+	r.line("\tentry s0")
+	r.items(first.items)
+	r.line(x + ":")
+	r.line("%endsection")
+	// the next block of the file: macro M, with an output of its own
+	m := mk()
+	m.alu(false)
+	m.emit()
+	r.line("%macro M 0")
+	r.items(m.items)
+	r.line("%endmacro")
+	n := mk()
+	n.alu(false)
+	r.line("%macro N 0")
+	r.items(n.items)
+	r.line("%endmacro")
+	live := mk()
+	live.place([]string{"e"})
+	live.ins("rset", "r0", literal(t, drawValue(t, rsize, "k0"), rsize))
+	live.ins("rset", "r1", literal(t, drawValue(t, rsize, "k1"), rsize))
+	live.ins("rset", "r2", literal(t, uint64(rapid.IntRange(3, 5).Draw(t, "iters")), rsize))
+	live.place([]string{x})
+	live.items = append(live.items, srcItem{Kind: kUse, Name: "N"})
+	live.emit()
+	live.ins("inc", "r0")
+	live.items = append(live.items, srcItem{Kind: kUse, Name: "M"})
+	live.ins("dec", "r2")
+	live.ins("jz", "r2", "done")
+	live.jump(x)
+	live.place([]string{"done"})
+	live.jump("done")
+	r.line("%section live .romtext iomode:sync")
+	r.line("\tentry e")
+	r.items(live.items)
+	r.line("%endsection")
+	r.line("%meta cpdef cpu romcode: live")
+	r.line("%meta ioatt out0 cp: cpu, index:0, type:output")
+	r.line("%meta ioatt out0 cp: bm, index:0, type:output")
+	r.line(fmt.Sprintf("%%meta bmdef global registersize:%d", rsize))
+	c.Src = r.b.String()
+	c.OutStall = []int{rapid.IntRange(0, 3).Draw(t, "stall")}
+	c.Ticks = rapid.IntRange(150, 300).Draw(t, "ticks")
+	return c
 }
